@@ -197,6 +197,26 @@ def run_case(case):
             res.count("variant_predictions_compared")
             if not np.allclose(p, p0, rtol=tol, atol=tol * (1 + np.abs(p0).max())):
                 res.violate("order_dependent_model", name, max_abs_diff=float(np.abs(p - p0).max()), **extra)
+    # tunables of the tree under test that this machinery does not know by name (discovered in mokapot.constants):
+    # training and prediction must not depend on them. Metamorphic comparison only - the replay model is not applied
+    # to these runs because it assumes nothing about how a future implementation blocks its estimator calls.
+    extras = core.extra_chunk_constants()
+    if extras:
+        sizes = {k: int(rng.choice([1, 2, 3, 7, n - 1])) for k in extras}
+        with core.chunk_sizes(**sizes):
+            m2, c2, _ = fit_once(tab, make_dataset(tab), learner, case["max_iter"], case["direction"], True, seed, train_fdr)
+            res.count("fits_under_discovered_constants")
+            if not c2.ok:
+                if not c2.explicit:
+                    res.violate("crash", c2.sig + "/discovered_constants", msg=c2.info["msg"], sizes=sizes, **extra)
+            else:
+                cp = core.Call(m2.predict, ds0)
+                p2 = np.asarray(cp.value, dtype=float) if cp.ok else None
+                if p2 is None or p2.shape != p0.shape or not np.allclose(p2, p0, rtol=tol, atol=tol * (1 + np.abs(p0).max())):
+                    res.violate("model_or_prediction_depends_on_chunk_constant", ",".join(extras), sizes=sizes,
+                                max_abs_diff=None if p2 is None or p2.shape != p0.shape else float(np.abs(p2 - p0).max()),
+                                rows_differing=None if p2 is None or p2.shape != p0.shape else int((~np.isclose(p2, p0, rtol=tol, atol=tol * (1 + np.abs(p0).max()))).sum()),
+                                **extra)
     # prediction matches features by name
     col_order = rng.permutation(len(tab["features"])).tolist()
     ds_cols = make_dataset(tab, None, col_order)
